@@ -234,6 +234,8 @@ def check_bounds(ck, rule, mod, fn, fused):
         buf = node.value.id
         ndim = k.buffers[buf][0]
         dims = subscript_dims(node)
+        if any(isinstance(d, ast.Slice) or (isinstance(d, ast.Constant) and d.value in (None, Ellipsis)) for d in dims):
+            continue      # a view expression (out[:, None]), not an element access
         if len(dims) != ndim:
             ck.bad(rule, mod, node, q, u(node),
                    'buffer %s has %d dimensions but is indexed with %d indices '
